@@ -285,6 +285,21 @@ def _d33(v: dict) -> bool:
     return len(names) != len(set(names))
 
 
+def _d52(v: dict) -> bool:
+    """a single-quoted string literal that contains a `$` (text that looks like a reference, kept as a string by the reader)"""
+    t = v["input"].get("text", "") if isinstance(v.get("input"), dict) else ""
+    return bool(re.search(r"'[^'\n]*\$[^'\n]*'", t))
+
+
+def _w52() -> bool:
+    from dictIO import DictReader, DictWriter
+    with impl.scratch() as td:
+        (td / "s").write_text("x 5;\nk '$x + 1';\n")
+        a = DictReader.read(td / "s")
+        DictWriter.write(a, td / "w", mode="w")
+        return impl.plain(DictReader.read(td / "w")).get("k") != "$x + 1"
+
+
 KNOWN_CLASSES = {"first_block_comment_nested": _d28, "same_block_comment_two_levels": _d32, "overflow_number_string": _d2,
-                 "same_include_twice": _d33, "line_comments_differing_in_trailing_blanks": _d41}
-WITNESSES = {"D28": c12._w28, "D32": c12._w32, "D2": c01._w2, "D33": _w33, "D41": _w41}
+                 "same_include_twice": _d33, "line_comments_differing_in_trailing_blanks": _d41, "single_quoted_dollar": _d52}
+WITNESSES = {"D28": c12._w28, "D32": c12._w32, "D2": c01._w2, "D33": _w33, "D41": _w41, "D52": _w52}
